@@ -498,7 +498,10 @@ def run_history(alpha: Alphabet, seed: int, length: int, kinds=None) -> Sim:
 
     STRUCT = ('compress', 'unfold', 'unfold_all', 'restore', 'save')
 
-    def attempt(line, call, fn, on_ok=lambda r: 'ok'):
+    def attempt(line, call, fn, on_ok=lambda r: 'ok', must_ok=False):
+        """must_ok: the arguments satisfy the documented preconditions of
+        the call (decided by the caller from the grid, not by the model), so
+        any exception is an internal error of the implementation."""
         nonlocal c
         k0 = line.split(' ', 1)[0]
         u0 = unitary_or_none(c) if k0 in STRUCT and k0 != 'restore' else None
@@ -510,11 +513,30 @@ def run_history(alpha: Alphabet, seed: int, length: int, kinds=None) -> Sim:
                                    'structure-only call')
         except tuple(ERR) as e:
             ret = ERR[type(e)]
+            if must_ok:
+                sim.internal_error = (
+                    call, 'the arguments satisfy the documented '
+                    'preconditions, yet the call raised ' + repr(e) + '\n'
+                    + traceback.format_exc()[-1500:])
+                ret = 'internal ValidArgs'
         except INTERNAL as e:
             sim.internal_error = (call, repr(e) + '\n'
                                   + traceback.format_exc()[-1500:])
             ret = 'internal ' + type(e).__name__
         sim.record(line, ret, c, call)
+
+    def occupied(p):
+        return (-c.num_cycles <= p[0] < c.num_cycles
+                and -c.num_qudits <= p[1] < c.num_qudits
+                and not c.is_point_idle(p))
+
+    def op_fits(op):
+        return (op is not None
+                and all(0 <= q < c.num_qudits for q in op.location)
+                and len(set(op.location)) == len(op.location)
+                and all(c.radixes[q] == r
+                        for q, r in zip(op.location, op.radixes))
+                and len(op.params) == op.gate.num_params)
 
     for _ in range(length):
         if sim.internal_error:
@@ -527,10 +549,11 @@ def run_history(alpha: Alphabet, seed: int, length: int, kinds=None) -> Sim:
             if rng.random() < 0.3:
                 attempt(f'append {sim.op_text(op)}', f'append_gate({op!r})',
                         lambda: c.append_gate(op.gate, op.location, op.params),
-                        lambda r: f'ok {r}')
+                        lambda r: f'ok {r}', must_ok=op_fits(op))
             else:
                 attempt(f'append {sim.op_text(op)}', f'append({op!r})',
-                        lambda: c.append(op), lambda r: f'ok {r}')
+                        lambda: c.append(op), lambda r: f'ok {r}',
+                        must_ok=op_fits(op))
         elif kind == 'extend':
             ops = [sim.rand_op(c) for _ in range(rng.randint(1, 3))]
             ops = [o for o in ops if o is not None]
@@ -553,10 +576,11 @@ def run_history(alpha: Alphabet, seed: int, length: int, kinds=None) -> Sim:
         elif kind == 'pop':
             p = rand_point(sim, c)
             attempt(f'pop {p[0]} {p[1]}', f'pop({p})', lambda: c.pop(p),
-                    lambda r: 'ok ' + sim.op_text(r))
+                    lambda r: 'ok ' + sim.op_text(r), must_ok=occupied(p))
         elif kind == 'pop_none':
             attempt('pop none', 'pop()', lambda: c.pop(),
-                    lambda r: 'ok ' + sim.op_text(r))
+                    lambda r: 'ok ' + sim.op_text(r),
+                    must_ok=c.num_operations > 0)
         elif kind == 'remove':
             if c.num_operations == 0:
                 continue
@@ -569,7 +593,7 @@ def run_history(alpha: Alphabet, seed: int, length: int, kinds=None) -> Sim:
                     first = (kk, oo.location[0])
                     break
             attempt(f'pop {first[0]} {first[1]}', f'remove({op!r})',
-                    lambda: c.remove(op), lambda r: 'IGN')
+                    lambda: c.remove(op), lambda r: 'IGN', must_ok=True)
         elif kind == 'replace':
             p = rand_point(sim, c, 0.9)
             op = None
@@ -600,14 +624,17 @@ def run_history(alpha: Alphabet, seed: int, length: int, kinds=None) -> Sim:
                 op = sim.rand_op(c)
             if op is None:
                 continue
+            ok_args = (occupied(p) and op_fits(op)
+                       and bool(set(c[p].location) & set(op.location)))
             if rng.random() < 0.3:
                 attempt(f'replace {p[0]} {p[1]} {sim.op_text(op)}',
                         f'replace_gate({p}, {op!r})',
                         lambda: c.replace_gate(p, op.gate, op.location,
-                                               op.params))
+                                               op.params), must_ok=ok_args)
             else:
                 attempt(f'replace {p[0]} {p[1]} {sim.op_text(op)}',
-                        f'replace({p}, {op!r})', lambda: c.replace(p, op))
+                        f'replace({p}, {op!r})', lambda: c.replace(p, op),
+                        must_ok=ok_args)
         elif kind == 'batch_replace':
             pts = [(k, q) for k in range(c.num_cycles)
                    for q in range(c.num_qudits)
@@ -657,7 +684,8 @@ def run_history(alpha: Alphabet, seed: int, length: int, kinds=None) -> Sim:
                    for _ in range(rng.randint(1, 4))]
             line = 'batch_pop ' + ' '.join(f'{p[0]} {p[1]}' for p in pts)
             attempt(line, f'batch_pop({pts})', lambda: c.batch_pop(pts),
-                    lambda r: 'ok ' + sim.circ_text(r))
+                    lambda r: 'ok ' + sim.circ_text(r),
+                    must_ok=all(occupied(p) for p in pts))
         elif kind == 'remove_all':
             if c.num_operations == 0:
                 continue
@@ -670,11 +698,12 @@ def run_history(alpha: Alphabet, seed: int, length: int, kinds=None) -> Sim:
                    if (oo.gate == op.gate if by_gate else oo == op)]
             line = 'batch_pop ' + ' '.join(f'{a} {b}' for a, b in pts)
             attempt(line, f'remove_all({x!r})', lambda: c.remove_all(x),
-                    lambda r: 'IGN')
+                    lambda r: 'IGN', must_ok=True)
         elif kind == 'pop_cycle':
             ci = rng.randint(-c.num_cycles - 1, c.num_cycles)
             attempt(f'pop_cycle {ci}', f'pop_cycle({ci})',
-                    lambda: c.pop_cycle(ci))
+                    lambda: c.pop_cycle(ci),
+                    must_ok=-c.num_cycles <= ci < c.num_cycles)
         elif kind in ('append_circuit', 'insert_circuit',
                       'replace_with_circuit'):
             k = rng.randint(1, min(3, c.num_qudits))
@@ -802,7 +831,9 @@ def run_history(alpha: Alphabet, seed: int, length: int, kinds=None) -> Sim:
                 pass
             if kind == 'unfold':
                 attempt(f'unfold {p[0]} {p[1]}', f'unfold({p})',
-                        lambda: c.unfold(p))
+                        lambda: c.unfold(p),
+                        must_ok=occupied(p)
+                        and isinstance(c[p].gate, CircuitGate))
             else:
                 # several blocks at once, preferably of one cycle (unfolding
                 # one pushes the others back); sometimes a point twice, a
@@ -853,7 +884,8 @@ def run_history(alpha: Alphabet, seed: int, length: int, kinds=None) -> Sim:
             for _, o in c.operations_with_cycles():
                 if isinstance(o.gate, CircuitGate):
                     sim.block_gid(o.gate)
-            attempt('unfold_all', 'unfold_all()', lambda: c.unfold_all())
+            attempt('unfold_all', 'unfold_all()', lambda: c.unfold_all(),
+                    must_ok=True)
         elif kind in ('fold', 'straighten'):
             reg = rand_region(sim, c)
             if not reg:
@@ -877,6 +909,9 @@ def run_history(alpha: Alphabet, seed: int, length: int, kinds=None) -> Sim:
                                        'call')
                 sim.record(line, 'ok-rel', c, f'{kind}({reg})')
             except ValueError:
+                # fold documents ValueError for a region that is invalid OR
+                # cannot be straightened; the latter has no independent
+                # characterisation, so no must-succeed oracle here
                 sim.record(f'unchanged {sim.circ_text(c)}', 'ok', c,
                            f'{kind}({reg}) -> ValueError')
             except INTERNAL + (IndexError, TypeError) as e:
